@@ -639,7 +639,12 @@ fn build_queries<F: Float>(
     let mut q: Vec<Query> = Vec::new();
     let n = x.nrows();
     // training rows: a random subset plus the row farthest from every component
-    let ntrain = n.min(48);
+    // now and then a batch longer than any internal block size and not a multiple of one
+    // (hard assignments / probabilities of a batch are computed block-wise)
+    let ntrain = if c.rng.gen_range(0..20) == 0 { 1024 + c.rng.gen_range(1..1500usize) } else { n.min(48) };
+    if ntrain > 1024 {
+        c.count("query-batches-longer-than-1024-rows");
+    }
     for _ in 0..ntrain {
         let i = c.rng.gen_range(0..n);
         q.push(Query { x: x.row(i).to_vec(), tag: "train", r: 0.0 });
